@@ -13,12 +13,12 @@ import "errors"
 // whose index ranges are strictly increasing, starts with index 0 and ends
 // with index count-1; no run-time panic (empty bucket / empty current).
 //
-//verif:harness solver=cvc5 timeout=120000 param.T=3..6 thorough.param.T=3..16 thorough.deadline=7000 unwind=64 split=-1
+//verif:harness solver=cvc5 timeout=120000 param.T=3..6 thorough.param.T=3..8 param.E=4 thorough.param.E=5 thorough.deadline=3000 unwind=64 split=-1
 func verif_harness_C17_downsample() {
 	T := verif_param("T")
-	cmax := 10000
-	if verif_thorough() {
-		cmax = 1000000
+	cmax := 1
+	for e := verif_param("E"); e > 0; e-- {
+		cmax *= 10 // Cmax = 10^E
 	}
 	count := verif_nondet_int("count")
 	verif_assume(count > T && count <= cmax)
